@@ -166,7 +166,7 @@ pub trait CepstrumT: Buffer + Sized {
         let mut cepstrum = self.clone_with_size(m2 + 1);
         let mut f = vec![0.0; cepstrum.len()];
 
-        for i in 0..self.len() {
+        for i in (0..self.len()).rev() {
             #[cfg(feature = "verif-hooks")]
             crate::verif::point("cep.freqt");
             f[0] = cepstrum[0];
